@@ -336,6 +336,10 @@ fn main() {
             let nshards: usize = args[4].parse().unwrap();
             let seed: u64 = args[5].parse().unwrap();
             let mut out = par::Out::open(&args[7]);
+            if std::env::var("VH_SEARCH_WALL_MS").is_err() {
+                // wall-clock cap on one in-process search (see m_search::search)
+                std::env::set_var("VH_SEARCH_WALL_MS", if args[6] == "thorough" { "60000" } else { "12000" });
+            }
             worker(&args[2], shard, nshards, seed, &args[6], &mut out, &args[8..]);
             out.done();
         }
